@@ -242,7 +242,7 @@ def check(ctx):
             for g in (l if isinstance(l, list) else T.guards_from_local(body, l, bb)):
                 ctx.counters['cfg_paths'] += 1
                 seen.append('%s: %s' % (how, g.describe()))
-                if pe.guard_requires(body, g, pol) and pe.before_every_ok(body, {g.switch_bb}) and operands_ok(A, B): best = (how, g, bb); break
+                if pe.guard_requires(body, g, pol) and pe.before_every_ok(body, {g.switch_bb}) and operands_ok(A, B): best = (how, g, bb, pol); break
             if best: break
         R = 'C10.guard/required-subset-of-given'
         if best: ctx.ok(R, 'T-GUARD', body.site(best[2]), guard=best[0], shape=best[1].describe())
@@ -250,6 +250,17 @@ def check(ctx):
         else: ctx.bad(R, 'T-GUARD', body.name, 'test `required_ids.is_subset(given_ids)` does not guard the Ok-exits with the declared parameter ids on the left and the given ids on the right', body.site(tests[0][1]), seen='; '.join(seen)[:300])
         # ---- partial evaluation applied to objective and to every constraint, with the given values
         pes = [c for c in body.calls if c.item == 'partial_evaluate' and (c.trait or '').endswith('Evaluate')]
+        # ---- "supplying all parameters produces an instance": with_parameters has one error of its own, the missing-parameter
+        # guard; every other Err-exit lies behind a partial_evaluate call (no validation / conversion that can fail on a
+        # complete assignment).  Path-sensitive: entry -> Err-exit avoiding the guard's failing side and the calls.
+        R2 = 'C10.guard/only-stated-errors'
+        if best:
+            g, pol = best[1], best[3]
+            failing = g.false_bb if pol else g.true_bb
+            own = pe.walk(body, [0], avoid={c.bb for c in pes} | ({failing} if failing is not None else set()))[0] & body.err_exits()
+            ctx.check(bool(pes) and not own, R2, 'T-ERRFLOW', body.name, 'with_parameters can fail for a complete assignment: an Err-exit is reachable without a missing parameter and without a failing partial_evaluate', body.site(min(own)) if own else body.site())
+        else:
+            ctx.bad(R2, 'T-ERRFLOW', body.name, 'the missing-parameter guard was not found, so the other error sources cannot be told apart', body.site())
         def self_is(c, ty): return re.search(ty + '$', c.self_ty or '') is not None or re.fullmatch(r'[A-Z]\w*', c.self_ty or '') is not None
         oks = body.strict_ok_exits()
         def common_rules(rule, c):
@@ -348,7 +359,7 @@ def check(ctx):
                     ctx.check(not others, 'C10.from/%s/only' % f, 'T-CARRY', fb.name, 'field `%s` also depends on %s' % (f, others), fb.site())
             carry_sources(ctx, 'C10.from/parameters', fb, src.get('parameters', []), 'parameters', not_fields=[(INST, 'parameters')])
     pe.unmark(ctx)
-    ctx.floor('C10.guard', 1); ctx.floor('C10.apply', 13); ctx.floor('C10.carry', 16); ctx.floor('C10.from', 17)
+    ctx.floor('C10.guard', 2); ctx.floor('C10.apply', 13); ctx.floor('C10.carry', 16); ctx.floor('C10.from', 17)
 
 
 def carry_sources(ctx, rule, body, ops, what, need_fields=(), not_fields=(), need_params=()):
